@@ -437,6 +437,15 @@ def same_id_cases():
                 return "%r then %r: items %s, expected %s" % (first, second, items, want)
             if sorted(g.line("g").tagnames) != ["xx"] + (["yy"] if "yy" in second else []):
                 return "tags not united: %s" % g.line("g").tagnames
+    # the united tags are written as they were given: name, datatype and value (a character stays A, JSON stays J, ...)
+    for tag in ("xx:A:c", "xx:J:[1, 2]", "xx:Z:s", "xx:i:0", "xx:f:1.5", "xx:H:0A", "xx:B:c,-1,2", "xx:B:f,1.5", "xx:J:{\"a\": 1}"):
+        for first, second in (("U\tg\tA\t" + tag, "U\tg\tB\tyy:i:1"), ("U\tg\tA\tyy:i:1", "U\tg\tB\t" + tag), ("O\tg\tA+ B+\t" + tag, "O\tg\tC+")):
+            for vlevel in (0, 1, 3):
+                g = gfapy.Gfa(base + [first], vlevel=vlevel)
+                g.add_line(second)
+                fields = str(g.line("g")).split("\t")[3:]
+                if tag not in fields:
+                    return "%r then %r (level %d): tag written as %s" % (first, second, vlevel, fields)
     return True
 
 
